@@ -25,5 +25,5 @@ Lemma gyro_rad_spec sg sm m0 m1 m2 u0 u1 u2 ng00 ng01 ng02 ng10 ng11 ng12 ng20 n
           add3 (add3 w1 (bias_rad q0 q1 q2 u0 u1 u2)) (scale3 (sg * d2r) [ng10;ng11;ng12]) ++
           add3 (add3 w2 (bias_rad q0 q1 q2 u0 u1 u2)) (scale3 (sg * d2r) [ng20;ng21;ng22]))
          ++ bias_rad q0 q1 q2 u0 u1 u2 ++ ([0;0;0] ++ w1 ++ w2)).
-Proof. unfold C20_gyro_rad_R, w1, w2, q0, q1, q2. revert U0 U1 U2. open3. gyro_close. Qed.
+Proof. unfold w1, w2, q0, q1, q2. unfold_c20. unfold C20_gyro_rad_R. revert U0 U1 U2. open3. gyro_close. Qed.
 End Given.
